@@ -2,3 +2,16 @@
 for _i in range(1, 21):
     na("C%02d" % _i, "check not built yet (see DESIGN.md section 4 for the planned static rules)")
 na("C18", "reply equality with a reference Redis model over arbitrary command programs is an input/output fact of data-structure code; no clause of it is a shape of the code that a sound static rule in reach decides (DESIGN.md section 6)")
+
+ASSUME = "Trusted base: go/types, x/tools go/ssa + VTA call graph (v0.29.0), and the rule implementations in /verif/checker. Decides the named structural clauses (necessary conditions), not the runtime behaviour; idioms outside the enumerated lists are reported as undecided and fail."
+
+claim("C03", "other",
+      "Static rule set on the SSA form: every loop in the framework and example store makes progress on every cycle and has a loop-variant exit (no request can make the connection spin, for all argument shapes at once); in the connection loop every received request reaches exactly one response-writer call before the next read/return on every CFG path; no goroutine/channel hand-off between read and reply; QUIT ends the function after its reply; other handler errors become an error reply and keep the loop. Necessary conditions of the property that tests cannot sample (a spinning request hangs a test).",
+      ASSUME + " io.Reader never returns (0, nil) forever; reply contents are not decided.",
+      "loop-progress analysis + path automaton over the SSA CFG + call-graph reachability", "DESIGN.md 4 C03")
+claim("C20", "proof",
+      "All-paths dataflow over the SSA CFG of the connection loop with a finite span automaton (root none/open/finished x child depth), coinductive balanced-callee summaries for every span-touching function reachable from the loop (deferred FinishSpan applied at rundefers, recursion through composed commands included), and a who-may-call table of every span operation in redis/.... Obligations = every span call site classified, every loop exit and back edge in state (root finished-or-none, depth 0), every span-touching callee balanced; all must be discharged.",
+      ASSUME + " tracer.Context implements a stack; no panic unwinds through the loop.",
+      "path automaton (typestate) over SSA CFG with callee summaries", "DESIGN.md 4 C20")
+for _k in list(CLAIMS):
+    NA.pop(_k, None)
